@@ -412,9 +412,11 @@ def iteration_protocol(ctx: Ctx, rule: str, clsname: str):
     EndOfStream (and nothing else) into StopAsyncIteration, and __aiter__ returns the stream itself"""
     an = ctx.fn(f"{clsname}.__anext__", "abc/_streams.py")
     ai = ctx.fn(f"{clsname}.__aiter__", "abc/_streams.py")
-    s = ctx.sites(an, "return await self.receive()")
+    # (the awaited item returned directly, or bound to a local first and returned from the `else` clause / after the `try`)
+    rets_ = [r for r in own_walk(an.node) if isinstance(r, ast.Return)]
+    s = [r for r in rets_ if r.value is not None and ast.unparse(origin_of(an.node, r.value)) == "await self.receive()"]
     allrecv = [n for n in own_walk(an.node) if isinstance(n, ast.Call) and ast.unparse(n.func) == "self.receive"]
-    ctx.ob(rule, an, f"{clsname}.__anext__ returns exactly what receive() returned", len(s) == 1 and len(allrecv) == 1,
+    ctx.ob(rule, an, f"{clsname}.__anext__ returns exactly what receive() returned", len(s) == 1 and len(rets_) == 1 and len(allrecv) == 1,
            detail="" if s else "__anext__ is not `return await self.receive()` (an item could be dropped, duplicated or altered by iteration)", by=("return await self.receive()",))
     hs = [h for h in own_walk(an.node) if isinstance(h, ast.ExceptHandler)]
     ok = len(hs) == 1 and hs[0].type is not None and ast.unparse(hs[0].type) == "EndOfStream" and \
